@@ -5,6 +5,7 @@ import (
 	"flag"
 	"fmt"
 	"strings"
+	"sync/atomic"
 	"time"
 
 	"github.com/jimlambrt/gldap"
@@ -61,13 +62,26 @@ func (s *dirSym) c(x string) string {
 	return x
 }
 
+var entriesCalls int64 // which entries are made with gldap.NewEntry alternates from call to call
+
 func (s *dirSym) entries(es []dEntry) []*gldap.Entry {
+	atomic.AddInt64(&entriesCalls, 1)
 	out := make([]*gldap.Entry, 0, len(es))
 	// entries with equal value lists are given the very same slice (as testdirectory.NewUsers does with WithMembersOf,
 	// and as callers do who build several entries from one objectClass list): changing one entry must not show in another
 	shared := map[string][]string{}
-	for _, e := range es {
+	for n, e := range es {
 		ge := &gldap.Entry{DN: s.c(e.DN)}
+		// every other entry is made with gldap.NewEntry (from a map: possible when its attribute names are distinct and
+		// already in name order), the others are put together field by field
+		viaNew, m, prev := (n+int(hx.Seed())+int(atomic.AddInt64(&entriesCalls, 0)))%2 == 0, map[string][]string{}, ""
+		for _, a := range e.Attrs {
+			if _, dup := m[s.c(a.Name)]; dup || s.c(a.Name) < prev {
+				viaNew = false
+			}
+			prev = s.c(a.Name)
+			m[s.c(a.Name)] = nil
+		}
 		for _, a := range e.Attrs {
 			vals := make([]string, 0, len(a.Vals))
 			for _, v := range a.Vals {
@@ -80,6 +94,10 @@ func (s *dirSym) entries(es []dEntry) []*gldap.Entry {
 				shared[key] = vals
 			}
 			ge.Attributes = append(ge.Attributes, gldap.NewEntryAttribute(s.c(a.Name), vals))
+			m[s.c(a.Name)] = vals
+		}
+		if viaNew && len(e.Attrs) > 0 {
+			ge = gldap.NewEntry(s.c(e.DN), m)
 		}
 		out = append(out, ge)
 	}
